@@ -53,6 +53,13 @@ def run(ctx, res):
              b'1e-5', b'1e+5', b'1E5x', b'.5e3', b'5.', b'5..', b'0x1p4', b'::a::', b'::1::', b'a:b', b'--[==[x\n]==]', b'--[[x\n]]y',
              b'[==[a]=]b]==]', b'"\\0001"', b'"\\x41"', b'"\\z"', b'"\\300"', b'x="a\\\nb"', b'a\r\nb\rc\n', b'?"x"', b'a!=b', b'a~=b',
              b'a^^b', b'@a', b'$a', b'%a', b'a\\b', b'"unterminated', b'[[unterminated', b'--[[unterminated', b'`', b'a!b']
+    # positions after tokens that span lines or contain escapes: every such shape followed by more tokens on the same and on the next line
+    tails = [b' y=1\nz=2\n', b'..k -- c\n::l:: w=3']
+    for a in ([x for x in srcs[-44:] if b'\n' in x or b'\\' in x or b'[' in x] + gen_lua.string_escape_cases(rng, ctx.budget(150, 3000))):
+        srcs.append(a.rstrip(b'\n') + rng.choice(tails))
+    for body in (b'a\\\nb', b'\\\n', b'\\\n\\\n', b'a\\\n\\\nb\\\n', b'\\\r', b'a\\\r\nb', b'\\n', b'\\10', b'\\x0a', b'a\nb', b'\n', b'\r\n', b'\\\\\nq', b'\\\\\\\nq'):
+        for q in (b'"', b"'"):
+            srcs += [b'x=' + q + body + q + t for t in tails] + [b'f(' + q + body + q + b',' + q + body + q + b') g()\nh()']
     impl, lines_one, lines_spec, lines_split = [], [], [], []
     multi = []
     for s in srcs:
